@@ -191,7 +191,7 @@ def classify(a, b):
 
 def input_direction(ctx, res):
     r = random.Random(ctx["seed"] * 7919 + 13)
-    ndocs = 300 if ctx["tier"] == "quick" else 12000
+    ndocs = 1200 if ctx["tier"] == "quick" else 20000
     docs = []
     for i in range(ndocs):
         v = rand_value(r, r.randrange(1, 6))
@@ -244,7 +244,7 @@ def input_direction(ctx, res):
                 res.viols.append({"t": "viol", "prop": "C06", **v})
     # (3) chain: blots a | blots b
     chain = 0
-    for i, v, rr in docs[: (40 if ctx["tier"] == "quick" else 1500)]:
+    for i, v, rr in docs[: (150 if ctx["tier"] == "quick" else 2500)]:
         text_v = emit(v, rr)
         try:
             json.loads(text_v)
